@@ -107,13 +107,24 @@ func init() {
 		}
 		neg := in.ts.Not(t)
 		in.St.AssertQueries++
-		r, err := in.check(s, neg)
-		if err != nil {
-			r = smt.Unknown
+		var r smt.Result
+		var m map[string]uint64
+		if bad, have := in.evalModel(s, neg); have && bad {
+			// the cached model of the path condition already violates the assertion
+			r = smt.Sat
+			m = in.namedModel(s)
+		} else {
+			var err error
+			r, err = in.check(s, neg)
+			if err != nil {
+				r = smt.Unknown
+			}
+			if r == smt.Sat {
+				m, _ = in.sol.Model(in.traceVars(s))
+			}
 		}
 		switch r {
 		case smt.Sat:
-			m, _ := in.sol.Model(in.traceVars(s))
 			in.St.AssertFail++
 			s.fails = append(s.fails, &Failure{Kind: "assert", Label: label, Pos: in.pos(c.at), Model: m, Vector: in.vector(s, m), Choices: s.choices()})
 			if !in.feasible(s, t) {
@@ -576,19 +587,34 @@ func init() {
 			}
 			// case split on the interval of constant delta that contains r (fork per feasible interval)
 			ivs := in.mapIntervals(name, mapf)
-			in.sol.Define(r)
-			res, err := in.check(s)
-			if err != nil || res != smt.Sat {
-				if res == smt.Unsat {
-					s.status = AssumeFalse
-					return nil, nil, true
+			var v uint64
+			if in.modelValid(s) {
+				if mv, ok := term.Eval(r, s.model, map[int]uint64{}); ok {
+					v = mv
+				} else {
+					s.model = nil
 				}
-				in.unsup("solver unknown in %s", name)
 			}
-			v, verr := in.sol.Value(r)
-			in.sol.Pop()
-			if verr != nil {
-				in.unsup("%s: %v", name, verr)
+			if s.model == nil || !in.modelValid(s) {
+				res, err := in.check(s)
+				if err != nil || res != smt.Sat {
+					if res == smt.Unsat {
+						s.status = AssumeFalse
+						return nil, nil, true
+					}
+					in.unsup("solver unknown in %s", name)
+				}
+				m, merr := in.sol.ModelIDs(in.traceVars(s))
+				in.sol.Pop()
+				if merr != nil {
+					in.unsup("%s: %v", name, merr)
+				}
+				s.model, s.modelPC = m, s.pc
+				mv, ok := term.Eval(r, s.model, map[int]uint64{})
+				if !ok {
+					in.unsup("%s: cannot evaluate the argument under the model", name)
+				}
+				v = mv
 			}
 			sv := int64(int32(uint32(v)))
 			// find interval (intervals are over the signed rune value)
@@ -610,6 +636,21 @@ func init() {
 			return in.ts.Add(r, in.ts.Const(32, uint64(uint32(delta)))), nil, true
 		})
 	}
+	cases("unicode.ToTitle", unicode.ToTitle)
+	reg("unicode.To", func(in *Interp, s *State, c *callCtx) (Value, []*State, bool) {
+		k := c.args[0].(*term.Term)
+		if !k.IsConst() {
+			in.unsup("unicode.To with symbolic case")
+		}
+		name := map[uint64]string{unicode.UpperCase: "unicode.ToUpper", unicode.LowerCase: "unicode.ToLower", unicode.TitleCase: "unicode.ToTitle"}[k.Val]
+		h := intrinsics[name]
+		if h == nil {
+			in.unsup("unicode.To(%d)", k.Val)
+		}
+		c2 := *c
+		c2.args = c.args[1:]
+		return h(in, s, &c2)
+	})
 	cases("unicode.ToLower", unicode.ToLower)
 	cases("unicode.ToUpper", unicode.ToUpper)
 	cases("unicode.SimpleFold", unicode.SimpleFold)
@@ -677,7 +718,36 @@ func (in *Interp) mkFmtErr(s *State, msg *Str, wrapped Value) Value {
 
 // rangePred builds an exact membership term for a unicode predicate from the host tables.
 func (in *Interp) rangePred(name string, r *term.Term, pred func(rune) bool) *term.Term {
+	ck := predKey{name, r.ID}
+	if t, ok := in.predTerms[ck]; ok {
+		return t
+	}
+	t := in.rangePred0(name, r, pred)
+	if in.predTerms == nil {
+		in.predTerms = map[predKey]*term.Term{}
+	}
+	in.predTerms[ck] = t
+	return t
+}
+
+type predKey struct {
+	name string
+	id   int
+}
+
+func (in *Interp) rangePred0(name string, r *term.Term, pred func(rune) bool) *term.Term {
 	ranges := in.predRanges(name, pred)
+	// only ranges that the value can reach (x < 2^MaxBits)
+	if mb := r.MaxBits(); mb < 32 {
+		lim := rune(int64(1)<<uint(mb) - 1)
+		var rs [][2]rune
+		for _, rg := range ranges {
+			if rg[0] <= lim {
+				rs = append(rs, rg)
+			}
+		}
+		ranges = rs
+	}
 	res := in.ts.BoolC(false)
 	for _, rg := range ranges {
 		lo := in.ts.Const(32, uint64(rg[0]))
@@ -839,4 +909,15 @@ func (in *Interp) ufApply(s *State, name string, args []*term.Term, w int) *term
 	}
 	s.uf[name] = append(s.uf[name], ufApp{args: args, res: res})
 	return res
+}
+
+// namedModel renders the state's cached model by variable name (for replay vectors).
+func (in *Interp) namedModel(s *State) map[string]uint64 {
+	m := map[string]uint64{}
+	for _, r := range s.trace {
+		if r.Kind == "v" {
+			m[r.Var.Name] = s.model[r.Var.ID]
+		}
+	}
+	return m
 }
